@@ -344,6 +344,13 @@ class CondPlugin(PrimitiveLeafPlugin):
         branch_ctx.builder.outputs = branch_outputs
 
         branch_graph = branch_ctx.builder.graph.clone(allow_outer_scope_values=True)
+        # Only the clone lives on. Detach the discarded builder graph from the
+        # outer values it captured, otherwise its nodes stay registered as
+        # consumers and keep dead producers (and their initializers) alive.
+        for stale_node in list(branch_ctx.builder.graph):
+            for input_index, stale_input in enumerate(stale_node.inputs):
+                if stale_input is not None:
+                    stale_node.replace_input_with(input_index, None)
         branch_graph.name = ctx.fresh_name(prefix)
         branch_graph.inputs.clear()
         opset_imports = dict(branch_graph.opset_imports)
